@@ -30,6 +30,9 @@ import (
 //                  in that no successful execution of the same transaction follows the failed one: whatever
 //                  the failed handler left behind in memory (a cursor, a cached record, a flag) is what the
 //                  next block hook or the next transaction of ANOTHER kind meets
+//   then/<kind>    instead/gas-1 of the history's target, FOLLOWED IN THE SAME BLOCK by the valid target of another
+//                  scenario (a companion); the twin has the companion alone in that place. Whatever the companion
+//                  does - succeed, fail - it must do the same after a transaction that failed
 // Only insertions whose DeliverTx code is non-zero count (the others are not failures and are skipped).
 
 func init() { commands["C06"] = c06 }
@@ -44,6 +47,9 @@ type c06Job struct {
 	Tx    int    // own: flat index into the history's transactions; foreign: flat index in Src
 	Mode  string
 	Drop  bool `json:",omitempty"` // modes instead/*: transaction Tx is removed from the history (twin and run)
+	// mode then: the companion (flat index CompTx of scenario Comp) delivered right after the failing copy
+	Comp   string `json:",omitempty"`
+	CompTx int    `json:",omitempty"`
 }
 
 type c06Res struct {
@@ -73,7 +79,7 @@ func c06Insert(h *hist, j c06Job, gas int64) (*harness.TxSpec, error) {
 	}
 	t := txs[j.Tx].Fresh("c06" + j.Mode)
 	switch j.Mode {
-	case "gas-1", "instead-gas-1":
+	case "gas-1", "instead-gas-1", "then":
 		t.Fee.Gas = gas
 	case "price-huge", "instead-price-huge":
 		p, _ := new(big.Int).SetString("10000000000000000000000000000000000000000", 10)
@@ -130,6 +136,18 @@ func c06Hist(j c06Job) (*hist, *hist, error) {
 		return nil, nil, fmt.Errorf("instead: position out of range")
 	}
 	b.Txs = append(append([]*harness.TxSpec(nil), b.Txs[:j.At]...), b.Txs[j.At+1:]...)
+	if j.Comp != "" {
+		src, err := buildHist(j.Comp, 0)
+		if err != nil {
+			return nil, nil, err
+		}
+		txs := flatTxs(src)
+		if j.CompTx >= len(txs) {
+			return nil, nil, fmt.Errorf("then: companion index out of range")
+		}
+		c := txs[j.CompTx].Fresh("c06companion")
+		b.Txs = append(append(append([]*harness.TxSpec(nil), b.Txs[:j.At]...), c), b.Txs[j.At:]...)
+	}
 	return h, full, nil
 }
 
@@ -140,7 +158,7 @@ func c06Exec(j c06Job) c06Res {
 	}
 	baseKey := h.ID
 	if j.Drop {
-		baseKey = fmt.Sprintf("%s|without %d/%d", h.ID, j.Block, j.At)
+		baseKey = fmt.Sprintf("%s|without %d/%d|%s/%d", h.ID, j.Block, j.At, j.Comp, j.CompTx)
 	}
 	base, ok := c06Base[baseKey]
 	if !ok {
@@ -153,7 +171,7 @@ func c06Exec(j c06Job) c06Res {
 		c06Base[baseKey] = base
 	}
 	gas := int64(0)
-	if j.Mode == "gas-1" || j.Mode == "instead-gas-1" {
+	if j.Mode == "gas-1" || j.Mode == "instead-gas-1" || j.Mode == "then" {
 		// measure the gas the fresh copy uses at this very position
 		h, full, _ = c06Hist(j)
 		probe, err := c06Insert(full, j, harness.DefaultGas*10)
@@ -339,6 +357,36 @@ func c06(args []string) int {
 			flat += n
 		}
 	}
+	// mode then: the target replaced by a late-failing copy that is followed by a companion in the same block
+	for si, sc := range all {
+		if !keep(sc.ID()) {
+			continue
+		}
+		h, err := buildHist(sc.ID(), c06Extra)
+		if err != nil {
+			continue
+		}
+		flat := 0
+		for i := 0; i < h.Target; i++ {
+			flat += len(h.Blocks[i].Txs)
+		}
+		seenKind := map[string]bool{}
+		for fi, fm := range foreignMenu {
+			if fm.scn == sc.ID() {
+				continue
+			}
+			// every scenario of the history's own module is a companion (its handlers share store objects, cursors
+			// and flags with the failed transaction's); of the other kinds one scenario each - quick: a rotating
+			// quarter of them, thorough: all
+			if kindModule(fm.kind) != kindModule(sc.Kind) {
+				if seenKind[fm.kind] || (f.Tier == "quick" && (fi+si)%4 != 0) {
+					continue
+				}
+				seenKind[fm.kind] = true
+			}
+			jobList = append(jobList, c06Job{Scn: sc.ID(), Block: h.Target, At: 0, Tx: flat, Mode: "then", Drop: true, Comp: fm.scn, CompTx: fm.tx})
+		}
+	}
 	jobs := make([]interface{}, len(jobList))
 	for i := range jobList {
 		jobs[i] = jobList[i]
@@ -355,6 +403,10 @@ func c06(args []string) int {
 		srcKind := kind
 		if j.Src != "" {
 			srcKind = catalogue.Get(j.Src).Kind
+		}
+		mode := j.Mode
+		if j.Comp != "" {
+			mode = "then/" + catalogue.Get(j.Comp).Kind
 		}
 		if jr.Died || jr.Timeout {
 			rep.Violation(fmt.Sprintf("C06|process-died|inserted=%s|mode=%s", srcKind, j.Mode), "worker process died or hung: "+tail(jr.Stderr, 300), j)
@@ -374,7 +426,7 @@ func c06(args []string) int {
 		}
 		failedIns++
 		modes[j.Mode]++
-		distinct[fmt.Sprintf("%s|%d|%d|%s|%d|%s", j.Scn, j.Block, j.At, j.Src, j.Tx, j.Mode)] = true
+		distinct[fmt.Sprintf("%s|%d|%d|%s|%d|%s|%s|%d", j.Scn, j.Block, j.At, j.Src, j.Tx, j.Mode, j.Comp, j.CompTx)] = true
 		if len(r.Log) > 60 {
 			logs[r.Log[:60]]++
 		} else {
@@ -384,8 +436,8 @@ func c06(args []string) int {
 			rep.Sample(map[string]interface{}{"history": j.Scn, "block": j.Block + 1, "insert_at": j.At, "inserted": srcKind, "mode": j.Mode, "deliver_code": r.Code, "log": r.Log})
 		}
 		if r.Diff != "" {
-			sig := fmt.Sprintf("C06|failed-tx-has-effect|history=%s|inserted=%s|mode=%s|field=%s", j.Scn, srcKind, j.Mode, r.Field)
-			rep.Violation(sig, fmt.Sprintf("inserted failing %s (%s, code %d: %s): %s", srcKind, j.Mode, r.Code, r.Log, r.Diff), j)
+			sig := fmt.Sprintf("C06|failed-tx-has-effect|history=%s|inserted=%s|mode=%s|field=%s", j.Scn, srcKind, mode, r.Field)
+			rep.Violation(sig, fmt.Sprintf("inserted failing %s (%s, code %d: %s): %s", srcKind, mode, r.Code, r.Log, r.Diff), j)
 		}
 	})
 	rep.Set("evaluations", done)
@@ -400,7 +452,7 @@ func c06(args []string) int {
 	rep.Set("harness_error_samples", errSamples)
 	rep.Set("not_run_due_to_deadline", skipped)
 	rep.Set("exhaustive", skipped == 0 && harnessErr == 0)
-	rep.Set("bounds", map[string]interface{}{"failed_transactions_per_execution": 1, "trailing_blocks": c06Extra})
+	rep.Set("bounds", map[string]interface{}{"failed_transactions_per_execution": 1, "trailing_blocks": c06Extra, "companions_in_mode_then": map[string]string{"quick": "every scenario of the history's own module + one scenario of a rotating quarter of the other kinds", "thorough": "every scenario of the own module + one scenario of every other kind"}[f.Tier]})
 	if harnessErr > 0 {
 		fmt.Fprintf(harness.Out(), "C06: %d harness errors: %v\n", harnessErr, errSamples)
 	}
